@@ -260,6 +260,10 @@ fn one(id: &str, flags: &str, text: &str) -> Case {
     rt(id, flags, "main", "main", &[("main", text)])
 }
 
+/// cases whose `@@` marker is only the horizontal insertion point: the error is reported for a
+/// construct elsewhere (inside the macro / block that the marked call runs)
+const FREE_MARKER: &[&str] = &["macro_body_shift_call", "macro_imported_shift_main", "macro_default_err", "self_block_call"];
+
 fn runtime_cases() -> Vec<Case> {
     let mut v = Vec::new();
     // --- plain expressions / operators
@@ -304,6 +308,10 @@ fn runtime_cases() -> Vec<Case> {
     v.push(one("strict_iter", "s", "a\n@@{% for a in missing %}{% endfor %}"));
     v.push(one("strict_if", "s", "a\n@@{% if missing %}{% endif %}"));
     v.push(one("strict_filter_arg", "s", "a\n@@{{ s|replace(missing, 1) }}"));
+    // the failing instruction is the last one of its line, the next one is on the next line
+    v.push(one("strict_print_ws", "s", "a\n@@{{ missing -}}\n{{- x }}\nb"));
+    v.push(one("strict_if_ws", "s", "a\n@@{% if missing -%}\n{{- x }}\n{% endif %}"));
+    v.push(one("strict_print_ws_before", "s", "a\n{{ x -}}\n@@{{- missing }}\nb"));
     v.push(one("undef_attr_of_undef", "", "a\n@@{{ missing.attr }}\nb"));
     v.push(one("undef_index_of_undef", "", "a\n@@{{ missing[0] }}\nb"));
     // --- statements
@@ -339,7 +347,7 @@ fn runtime_cases() -> Vec<Case> {
     v.push(one("two_on_line", "", "a\n{{ x }} @@{{ 1 + s }} {{ x }}"));
     v.push(one("emitraw_after", "", "{{ x }}\nsome text\nmore @@text {{ 1 + s }}"));
     v.push(one("do_call", "", "a\n@@{% do bogus() %}"));
-    v.push(one("out_of_fuel", "f", "{% for a in range(5) %}\n@@{{ a }}\n{% endfor %}\n{% for a in range(1000) %}{{ a }}{% endfor %}"));
+    v.push(one("out_of_fuel", "f", "{% for a in range(5) %}\n{{ a }}\n{% endfor %}\n@@{% for a in range(1000) %}{{ a }}{% endfor %}"));
     // --- macros
     v.push(one("macro_body", "", "{% macro m(a) %}\n  @@{{ a + s }}\n{% endmacro %}\nx\n{{ m(1) }}"));
     v.push(one("macro_body_shift_call", "", "{% macro m(a) %}\n  {{ a + s }}\n{% endmacro %}\nx\n@@{{ m(1) }}"));
@@ -575,7 +583,10 @@ fn planted_cases(tier: &str, rng: &mut Rng) -> Vec<Case> {
                 format!("{}{}{}", &base[..*off], ins, &base[*off..])
             };
             // H marker at the start of the line of the planted position
-            let ls = text[..*off].rfind('\n').map(|p| p + 1).unwrap_or(0);
+            // (not on the empty last line after a trailing newline: the tokenizer drops one trailing
+            // newline, so text inserted there would change more than the position)
+            let eff = if *off == text.len() && text.ends_with('\n') { *off - 1 } else { *off };
+            let ls = text[..eff].rfind('\n').map(|p| p + 1).unwrap_or(0);
             let marked = format!("{}@@{}", &text[..ls], &text[ls..]);
             out.push(Case {
                 id: format!("plant_{}_{}_{}", bi, pi, kind),
@@ -615,11 +626,16 @@ struct Built {
     n: usize,
     vbytes: usize,
     hbytes: usize,
+    /// 1-based line of the `@@` marker in the unshifted text and the number of further lines the
+    /// marked construct (the tag that follows the marker) extends over
+    mline: usize,
+    mext: usize,
 }
 
 fn build_case(c: &Case, vi: usize, hi: usize) -> Built {
     let mut sources = Vec::new();
     let (mut pv, mut ph, mut vline, mut n, mut vbytes, mut hbytes) = (0, 0, 1, 0, 0, 0);
+    let (mut mline, mut mext) = (1, 0);
     for (name, text) in &c.templates {
         if *name != c.shifted {
             sources.push((name.clone(), Src::lit(text)));
@@ -637,6 +653,10 @@ fn build_case(c: &Case, vi: usize, hi: usize) -> Built {
         pv = a;
         ph = h;
         vline = 1 + plain[..pv].bytes().filter(|x| *x == b'\n').count();
+        mline = 1 + plain[..ph].bytes().filter(|x| *x == b'\n').count();
+        let tail = &plain[ph..];
+        let tag_end = ["}}", "%}", "#}"].iter().filter_map(|e| tail.find(e)).min().unwrap_or(tail.len());
+        mext = tail[..tag_end].bytes().filter(|x| *x == b'\n').count();
         let base_lines = 1 + plain.bytes().filter(|x| *x == b'\n').count();
         let (vn, unit) = V_SHIFTS[vi];
         n = if vn == usize::MAX { 65535 - base_lines } else { vn };
@@ -656,7 +676,7 @@ fn build_case(c: &Case, vi: usize, hi: usize) -> Built {
         s.push_lit(&plain[ph..]);
         sources.push((name.clone(), s));
     }
-    Built { sources, pv, ph, vline, n, vbytes, hbytes }
+    Built { sources, pv, ph, vline, n, vbytes, hbytes, mline, mext }
 }
 
 fn run_case(c: &Case, vi: usize, hi: usize) -> String {
@@ -717,8 +737,9 @@ fn run_case(c: &Case, vi: usize, hi: usize) -> String {
     };
     let specs: Vec<String> = b.sources.iter().map(|(n, s)| format!("{}={}", hex(n.as_bytes()), s.spec())).collect();
     format!(
-        "P{},{},{},{},{},{},{}|{}|{}",
-        b.pv, b.ph, b.vline, b.n, b.vbytes, b.hbytes, hex(c.shifted.as_bytes()), body, specs.join(";")
+        "P{},{},{},{},{},{},{},{},{},{}|{}|{}",
+        b.pv, b.ph, b.vline, b.n, b.vbytes, b.hbytes, hex(c.shifted.as_bytes()), b.mline, b.mext,
+        FREE_MARKER.contains(&c.id.as_str()) as u8, body, specs.join(";")
     )
 }
 
